@@ -370,7 +370,10 @@ func stepK4(be *backend, c *k4Conn, r *rng, t uint8, m interface{}) []string {
 func runK13(r *rng, n int) {
 	msizes := []uint64{24, 64, 100, 4096, 8192, 65536, 1 << 20, 4 << 20, 8 << 20}
 	for i := 0; i < n; i++ {
-		ms := msizes[r.intn(len(msizes))]
+		ms := msizes[r.intn(6)]
+		if r.chance(1, 25) {
+			ms = msizes[6+r.intn(3)] // the megabyte sizes are costly: rare
+		}
 		eff := ms
 		if eff > 4<<20 {
 			eff = 4 << 20
